@@ -447,9 +447,9 @@ impl Mon {
         if self.start.elapsed().as_secs_f64() > self.width_slice_end {
             return false;
         }
-        // thinning with a bounded drought: after 16 rejections in a row the next candidate is taken, so every
+        // thinning with a bounded drought: after 4 rejections in a row the next candidate is taken, so every
         // directed list of some length contributes (the per-operation decay in `case` bounds the total)
-        let pick = (self.keep_rng.u64() >> 11) as f64 / (1u64 << 53) as f64 <= self.cfg.light || self.drought >= 16;
+        let pick = (self.keep_rng.u64() >> 11) as f64 / (1u64 << 53) as f64 <= self.cfg.light || self.drought >= 4;
         self.drought = if pick { 0 } else { self.drought + 1 };
         pick
     }
@@ -564,12 +564,12 @@ impl Mon {
         if !self.width_on(bits) || !self.op_enabled(op) {
             return;
         }
-        if self.cfg.light > 0.0 {
-            // light lanes buy breadth: after the first few cases of an operation at a width, further ones are
+        if self.cfg.light > 0.0 && self.cfg.ops.is_none() {
+            // light lanes buy breadth (unless the lane is restricted to named operations): after the first case of an operation at a width, further ones are
             // executed with quickly falling probability, so that one long directed list cannot use up the budget
             let c = self.light_counts.entry((op.to_string(), bits)).or_insert(0);
             *c += 1;
-            const CAP: f64 = 2.0;
+            const CAP: f64 = 1.0;
             if (*c as f64) > CAP {
                 let p = (CAP / *c as f64).powi(2);
                 if ((self.keep_rng.u64() >> 11) as f64 / (1u64 << 53) as f64) > p {
